@@ -7,6 +7,8 @@ From Coq Require Import Permutation Sorted ZifyBool.
 From AwVerif Require Import Base.Prelude Model.Heartbeat Model.StoreBase Model.Ingest
   Proofs.HeartbeatProofs.
 
+Ltac splits := repeat match goal with |- _ /\ _ => split end.
+
 (* ---- lists ---- *)
 
 Lemma list_snoc_cases : forall {A} (l : list A), l = [] \/ exists old x, l = old ++ [x].
@@ -72,6 +74,24 @@ Proof.
   intros A f l H. induction l as [|a t IH]; [reflexivity|].
   cbn [map]. rewrite H by (left; reflexivity). rewrite IH; [reflexivity|].
   intros; apply H; right; assumption.
+Qed.
+
+Lemma filter_map_comm_in : forall {A} (p : A -> bool) (f : A -> A) l,
+  (forall x, In x l -> p (f x) = p x) -> filter p (map f l) = map f (filter p l).
+Proof.
+  intros A p f l H. induction l as [|a t IH]; [reflexivity|].
+  cbn [map filter]. rewrite H by (left; reflexivity). rewrite IH by (intros; apply H; right; assumption).
+  destruct (p a); reflexivity.
+Qed.
+
+Lemma list_max_ge : forall t x y, In y (x :: t) -> y <= list_max x t.
+Proof.
+  intros t. induction t as [|a t IH]; intros x y Hy; cbn [list_max fold_right].
+  - destruct Hy as [Hy|[]]. lia.
+  - fold (list_max x t). destruct Hy as [Hy|[Hy|Hy]].
+    + pose proof (IH x x (or_introl eq_refl)). lia.
+    + lia.
+    + pose proof (IH x y (or_intror Hy)). lia.
 Qed.
 
 (* ---- StronglySorted ---- *)
@@ -341,7 +361,7 @@ Section Generic.
     destruct (list_snoc_cases es) as [->|(old & l & ->)].
     - cbn [rev firstn].
       destruct (H_insert st b m [] hb Hinv Hv Hid) as (st' & o & i & Hst & Hv' & Hi & Hf & Hinv').
-      exists st', o, [set_eid hb (Some i)]. repeat split; try assumption.
+      exists st', o, [set_eid hb (Some i)]. splits; try assumption.
       eapply shape_first; reflexivity.
     - rewrite firstn1_rev_snoc. destruct (heartbeat_merge l hb p) as [mm|] eqn:Hm.
       + pose proof Hids as Hids0. destruct Hids as [Hn Hsome].
@@ -351,11 +371,11 @@ Section Generic.
           specialize (Hsome l Hin). destruct (eid l) as [i|]; [eauto|congruence]. }
         destruct Hl as [i Hl].
         destruct (H_replace st b m old l i mm Hinv Hv Hs Hids0 Hl) as (st' & o & Hst & Hv' & Hf & Hinv').
-        exists st', o, (old ++ [mm]). repeat split; try assumption.
+        exists st', o, (old ++ [mm]). splits; try assumption.
         * rewrite Hv'. destruct (merge_keeps _ _ _ _ Hm) as (E & _). rewrite <- Hl, <- E, set_eid_same. reflexivity.
         * eapply shape_merge; [reflexivity|exact Hm|reflexivity].
       + destruct (H_insert st b m (old ++ [l]) hb Hinv Hv Hid) as (st' & o & i & Hst & Hv' & Hi & Hf & Hinv').
-        exists st', o, ((old ++ [l]) ++ [set_eid hb (Some i)]). repeat split; try assumption.
+        exists st', o, ((old ++ [l]) ++ [set_eid hb (Some i)]). splits; try assumption.
         eapply shape_insert; [reflexivity|exact Hm|exact Hi|reflexivity].
   Qed.
 
@@ -382,7 +402,7 @@ Section Generic.
   Proof.
     intros b p m stream. induction stream as [|hb rest IH]; intros st es Hinv Hv Hs Hids Hrd Hst Hinc Hlt.
     - exists st, ONone, es. cbn [ingest_stream fold_left]. rewrite rev_involutive.
-      repeat split; try assumption. intros b' _. reflexivity.
+      splits; try assumption; try reflexivity. intros b' _. reflexivity.
     - inversion Hst as [|? ? [Hid Hrh] Hst']; subst. inversion Hlt as [|? ? Hlt1 Hlt']; subst.
       inversion Hinc as [|? ? Hinc' Hhb]; subst.
       destruct (ingest_step_ok st b p hb m es Hinv Hv Hs Hids Hrd Hid)
@@ -395,7 +415,7 @@ Section Generic.
                    (step_shape_ids _ _ _ _ Hshape Hids) (step_shape_rd _ _ _ _ Hshape Hrd Hrh)
                    Hst' Hinc' Hlt1')
         as (st' & o & es' & Hrun & Hv' & Hf' & Hinv' & Hfold & Hs' & Hids' & Hrd').
-      exists st', o, es'. repeat split; try assumption.
+      exists st', o, es'. splits; try assumption.
       + intros b' Hb. rewrite (Hf' b' Hb). apply Hf1. exact Hb.
       + rewrite Hfold. cbn [fold_left]. rewrite (step_shape_fold _ _ _ _ Hid Hshape), rev_involutive. reflexivity.
   Qed.
@@ -414,7 +434,7 @@ Section Generic.
     destruct (ingest_stream_ok b p m stream st [] Hinv Hv) as (st' & o & es' & H1 & H2 & H3 & H4 & H5 & H6 & H7 & _);
       try assumption; try (repeat constructor).
     - apply Forall_forall. intros; constructor.
-    - exists st', o, es'. repeat split; try assumption; try apply H7.
+    - exists st', o, es'. splits; try assumption; try apply H7.
       rewrite H5. cbn [map rev]. symmetry. apply reduce_is_fold.
   Qed.
 End Generic.
